@@ -1,5 +1,6 @@
 import TRV.Props.C12
 import TRV.Proofs.Compose
+import TRV.Proofs.Link
 /-!
 # C12, composition with the matchers: "enabling filtering never changes results"
 
@@ -189,7 +190,78 @@ theorem c12_compose_icmp6_full_false : ¬ c12_compose_icmp6_full := by
   revert this
   decide
 
+/-! ## From the frame: what the capture source hands up, and which program is attached -/
+
+/-- **Frame level, IPv4**: if the capture source hands the packet `pkt` up for the frame `f`
+    (`stripEthernetHeader`), the frame's EtherType is IPv4, and a matcher turns `pkt` into a hop,
+    then the program that variant installs accepts `f` itself. -/
+theorem c12_frame_compose_v4 {f pkt : Bytes} (hs : Link.strip f = .packet pkt) (het : u16 f 12 = some 0x0800) :
+    (∀ (s : IcmpSt) t a d tm, (∃ b0, u8 pkt 0 = some b0 ∧ b0 / 16 = 4) →
+        icmpRecv s pkt = .accept t a d tm → accepts icmp f = true) ∧
+    (∀ (s : UdpSt) t a d tm, UdpInv s → s.cfg.target.length = 4 →
+        (∃ b0, u8 (pkt.take bufSize) 0 = some b0 ∧ b0 / 16 = 4) →
+        udpRecv s pkt = .accept t a d tm → accepts icmp f = true) ∧
+    (∀ (s : TcpSt) t a d tm, (∃ b0, u8 (pkt.take bufSize) 0 = some b0 ∧ b0 / 16 = 4) →
+        tcpRecv s pkt = .accept t a d tm →
+        accepts (tcpTuple (beNat s.cfg.target) (beNat s.cfg.localA) s.cfg.tport s.cfg.lport) f = true) ∧
+    (∀ (s : SackSt) t a d tm, (∃ b0, u8 (pkt.take bufSize) 0 = some b0 ∧ b0 / 16 = 4) →
+        sackRecv s pkt = .accept t a d tm →
+        accepts (tcpTuple (beNat s.cfg.target) (beNat s.cfg.localA) s.cfg.tport s.cfg.lport) f = true) := by
+  obtain ⟨eth, hlen, _, rfl⟩ := TRV.Proofs.Link.strip_packet_iff.mp hs
+  have het' : u16 eth 12 = some 0x0800 := by
+    rw [← TRV.Proofs.Bpf.u16_append_left (a := eth) (b := pkt) (off := 12) (by omega)]; exact het
+  exact ⟨fun s t a d tm hv h => c12_compose_icmp4 hlen het' hv h,
+    fun s t a d tm hinv h4 hv h => c12_compose_udp4 hlen het' hinv h4 hv h,
+    fun s t a d tm hv h => c12_compose_tcp hlen het' hv h,
+    fun s t a d tm hv h => c12_compose_sack hlen het' hv h⟩
+
+/-- the frame-level statement without the EtherType hypothesis -/
+def c12_frame_compose_full : Prop :=
+  ∀ (f pkt : Bytes) (s : IcmpSt) (t : Nat) (a : Bytes) (d : Bool) (tm : Nat),
+    Link.strip f = .packet pkt → (∃ b0, u8 pkt 0 = some b0 ∧ b0 / 16 = 4) →
+    icmpRecv s pkt = .accept t a d tm → accepts icmp f = true
+
+private def f12bCfg : IcmpCfg := { localA := [192, 0, 2, 2], target := [198, 51, 100, 9], echoId := 0x4230, min := 1, max := 8 }
+private def f12bSt : IcmpSt := { cfg := f12bCfg, sent := [{ ttl := 1, id := 0x4230, seq := 1, time := 10 }] }
+/-- echo reply of the target for sequence number 1 — an IPv4 packet -/
+private def f12bPkt : Bytes :=
+  [0x45, 0, 0, 28, 0, 0, 0, 0, 57, 1, 0, 0] ++ [198, 51, 100, 9] ++ [192, 0, 2, 2] ++ [0, 0, 0, 0, 0x42, 0x30, 0, 1]
+/-- … behind an Ethernet header whose EtherType says IPv6 -/
+private def f12bFrame : Bytes := [2, 0, 0, 0, 0, 1, 2, 0, 0, 0, 0, 2, 0x86, 0xdd] ++ f12bPkt
+
+/-- **Finding F12b**: the full frame-level statement is false.  The capture source hands up the
+    packet of a frame whose EtherType names the other IP version (it only requires an IP EtherType),
+    the matcher goes by the version nibble and accepts, the filter dispatches on the EtherType and
+    drops (replayed on the real code by the `compose` stream, framing
+    `ethertype-of-the-other-ip-version`). -/
+theorem c12_frame_compose_full_false : ¬ c12_frame_compose_full := by
+  intro h
+  have := h f12bFrame f12bPkt f12bSt 1 [198, 51, 100, 9] true 10 (by decide) ⟨0x45, by decide, by decide⟩ (by decide)
+  rw [c12_icmp_exact] at this
+  revert this
+  decide
+
+/-- **Which program is attached**: after any sequence of `SetPacketFilter` calls (and frames arriving
+    in between) the program attached to the capture socket is the one of the LAST call — nothing
+    after `FilterTypeNone` — and every frame waiting in the socket's queue was accepted by it
+    (attaching drains what was queued under the previous program). -/
+theorem c12_source_attached_and_queue (evs : List (Link.Ev (List Instr))) :
+    (evs.foldl (Link.Source.step accepts) { attached := none, queue := [] }).attached =
+      Link.lastSet none evs ∧
+    ∀ q, (evs.foldl (Link.Source.step accepts) { attached := none, queue := [] }).attached = some q →
+      ∀ f ∈ (evs.foldl (Link.Source.step accepts) { attached := none, queue := [] }).queue, accepts q f = true := by
+  refine ⟨?_, ?_⟩
+  · exact TRV.Proofs.Link.attached_is_last accepts evs { attached := none, queue := [] }
+  · exact TRV.Proofs.Link.queue_accepted accepts evs { attached := none, queue := [] } (fun q hq => by simp at hq)
+
 /-! ## Non-vacuity -/
+
+/-- the F12b packet behind the matching EtherType: handed up, accepted by the matcher, and passed by
+    the filter (through the frame-level theorem) -/
+example : accepts icmp ([2, 0, 0, 0, 0, 1, 2, 0, 0, 0, 0, 2, 0x08, 0x00] ++ f12bPkt) = true :=
+  (c12_frame_compose_v4 (f := [2, 0, 0, 0, 0, 1, 2, 0, 0, 0, 0, 2, 0x08, 0x00] ++ f12bPkt) (pkt := f12bPkt)
+    (by decide) (by decide)).1 f12bSt 1 [198, 51, 100, 9] true 10 ⟨0x45, by decide, by decide⟩ (by decide)
+
 
 /-- the same echo reply directly behind the IPv6 header: accepted by the matcher, and then (by the
     partial theorem) by the filter -/
@@ -209,5 +281,8 @@ example : accepts icmp (f12Eth ++ f12PktDirect) = true :=
 #print axioms c12_compose_icmp6_partial
 #print axioms c12_compose_udp6_partial
 #print axioms c12_compose_icmp6_full_false
+#print axioms c12_frame_compose_v4
+#print axioms c12_frame_compose_full_false
+#print axioms c12_source_attached_and_queue
 
 end TRV.Props.C12
